@@ -33,6 +33,12 @@ def make_cases(tier, rng):
             for o in (["accept_first", "dial_first"] if tier == "thorough" or gate == GATES[0][0] else ["accept_first" if who == "D" else rng.choice(["accept_first", "dial_first"])]):
                 ests = [g.est(rng, d, o, gap=rng.choice([0, 300])), g.est(rng, d, rng.choice(["accept_first", "dial_first"]), gap=0)]
                 add("inproc", ests, "hold:" + gate, hold={"gate": gate, "side": "", "ms": rng.choice([150, 400])})
+    # one number used as an id in both directions (each side's NextId starts at 1): the second establishment's dial
+    # comes within 5 s of the first one's knock, its accept after those 5 s -- still well inside its own window
+    for first in ["h2p", "p2h"]:
+        e1 = g.est(rng, first, "accept_first", gap=0)
+        e2 = dict(g.est(rng, "p2h" if first == "h2p" else "h2p", "dial_first", gap=4000, start=2000), id=e1["id"])
+        add("inproc", [e1, e2, g.est(rng, gap=0)], "same-number-both-ways")
     # an unmatched dial, then correctly established connections
     add("inproc", [g.est(rng, nopeer="dial_only"), g.est(rng, gap=0), g.est(rng, gap=100)], "unmatched")
     # ... in the same direction as the unmatched dial (whose knock gRPC repeats when the first one timed out)
